@@ -597,7 +597,7 @@ func genC11(ctx *Ctx, r *rng) []Case {
 				to = hx(r.bytesN(20))
 				t0 = to
 			}
-			name := r.pick([]string{"Test User", "A B C", "Ünï", "x"})
+			name := r.pick([]string{"Test User", "A B C", "Ünï", "x", "Team: Core", "commit: a: b"})
 			email := r.pick([]string{"a@b.cc", "test@example.com"})
 			off := (r.intn(105) - 48) * 900
 			unix := 1700000000 + r.intn(1000)
